@@ -85,6 +85,10 @@ TAINTS = {
     # mutation from inside a nested function (it may run at any time)
     'nested_update_kwargs': ('kwargs', 'def _mut():\n    {K}.update(HK)\n_mut()', 'both'),
     'nested_handover_kwargs': ('kwargs', 'def _mut2():\n    MUTATE({K})\n_mut2()', 'both'),
+    # ... handed over as the value of a named argument
+    'handover_named_kwargs': ('kwargs', 'MUTATE(d={K})', 'both'),
+    'nested_handover_named_kwargs': ('kwargs', 'def _mut3():\n    MUTATE(d={K})\n_mut3()', 'both'),
+    'lambda_handover_named_kwargs': ('kwargs', '(lambda: MUTATE(d={K}))()', 'both'),
     # bindings that are not assignment targets
     'import_kwargs': ('kwargs', 'from verif_hidden import HKV as {K}', 'hidden'),
     'import_args': ('args', 'from verif_hidden import HAV as {A}', 'hidden'),
@@ -723,6 +727,23 @@ class Built(object):
 
     def close(self):
         realfn.unload(self.g)
+
+    def prime_with_failure(self):
+        """A first retrieval while the callees do not exist yet (module globals defined later): whatever it returns or raises,
+        it must leave nothing behind that changes the next retrieval.  Only for routes that look the callee up in the module."""
+        import sigtools
+        if self.prog['route'] not in ('global', 'partial_inner', 'attr'):
+            return False
+        names = [n for n in self.g if (n.startswith('L') and n[1:].isdigit()) or n == 'NS']
+        saved = {n: self.g.pop(n) for n in names}
+        try:
+            try:
+                sigtools.signature(self.target)
+            except Exception:
+                pass
+        finally:
+            self.g.update(saved)
+        return True
 
     def leaf_obj(self, i):
         """The callee object as the wrapper's call expression sees it."""
